@@ -76,9 +76,10 @@ Theorem C09_requests_never_internal :
   forall s o, inv_b s = true -> request_ok s o = true -> is_internal (step_op o s) = false.
 Proof. exact requests_never_internal. Qed.
 
-(* The clause "a step does not define a step with its own label" of request_ok is needed: a
-   RUNNING step that was detached meanwhile (its creator failed) and defines itself hits the
-   CHECK (creator != i) of the node table: sqlite3.IntegrityError (finding C09-selfdefine). *)
+(* Regression witness of finding D16 (fixed in the repo by 84c79e1): a RUNNING step that was
+   detached meanwhile (its creator failed) and defines a step with its own label used to hit the
+   CHECK (creator != i) of the node table (sqlite3.IntegrityError); it is now rejected as a usage
+   error before anything is written.  The model follows the fixed code (Usage 211). *)
 Definition plan_label : str := [46; 47; 112].
 Definition selfdef_prefix : list op :=
   [OpDeclareStatic root_key [[112]];
@@ -91,11 +92,12 @@ Definition selfdef_prefix : list op :=
    OpResetForRerun [65];
    OpExecEnd plan_label [] CFailed [] false false].
 Definition selfdef_request : op := OpDefineStep (KStep, [65]) [65] [] [] [] [] NDefault.
-Theorem C09_self_definition_internal_refuted :
-  exists cap ops o, let s := run_ops ops (init_st cap) in
-    protocol_run_b (init_st cap) ops = true /\ inv_b s = true /\ request_ok_weak s o = true /\
-    step_op o s = Internal 124.
-Proof. exists 3, selfdef_prefix, selfdef_request. vm_compute. repeat split; reflexivity. Qed.
+Example C09_self_definition_is_usage_error :
+  let s := run_ops selfdef_prefix (init_st 3) in
+  protocol_run_b (init_st 3) selfdef_prefix = true /\ inv_b s = true /\ request_ok s selfdef_request = true /\
+  is_detached (KStep, [65]) s = true /\ sstate_of [65] s = Some SRunning /\
+  step_op selfdef_request s = Usage 211.
+Proof. vm_compute. repeat split; reflexivity. Qed.
 
 (* the hypotheses are satisfiable by non-trivial instances *)
 Example C09_protocol_nonvacuous :
